@@ -25,8 +25,8 @@
 
   A configuration is the list of its items in the order `run` visits them; every item says whether its
   initialisation succeeds and whether a successfully initialised item owns an OS socket from then on
-  (every listener, the metrics endpoint, a quic:// or h3:// upstream; the memory cache owns none and the redis
-  backend is not modelled).  Items are identified by their position.
+  (every listener, the metrics endpoint, a quic:// or h3:// upstream) or goroutines (the memory cache) or a
+  connection (the redis backend).  Items are identified by their position.
   `serverClosers` is a list of *optional* closers: `none` is a nil `func()`, calling it panics.  `startServer`
   returns `(nil, err)` on failure; the code appends the closer only after the error check.
 -/
@@ -35,7 +35,11 @@ import MosVerif.Util
 namespace MosVerif.Startup
 
 inductive Kind where
-  | metrics | upstream | domainSet | rule | cache | server
+  | metrics | upstream | domainSet | rule
+  /-- `initCache`: the memory cache (otter, owns goroutines), then the redis backend (owns a connection), then
+      the ip marker file; `cacheDone` is `r.cache = cache` after `initCache` returned without error -/
+  | memCache | redisCache | ipMarker | cacheDone
+  | server
   deriving DecidableEq, Repr
 
 structure Item where
@@ -59,8 +63,10 @@ inductive Act where
 structure Router where
   /-- `r.upstreams` (ids of the initialised upstreams) -/
   upstreams : List Nat := []
-  /-- `r.cache` -/
-  cache : Option Nat := none
+  /-- the backends started by the running `initCache` (its local `c`), not yet assigned to `r.cache` -/
+  cacheLocal : List Nat := []
+  /-- `r.cache` (nil, or the backends it owns) -/
+  cache : Option (List Nat) := none
   /-- `r.serverClosers`; `none` = nil func -/
   closers : List (Option Nat) := []
   /-- `r.closeOnce` has fired -/
@@ -86,12 +92,18 @@ def closeUpstreams : List Nat → World → World
   | u :: rest, w =>
     closeUpstreams rest { w with acts := w.acts ++ [.upClose u], live := w.live.filter (· != u) }
 
+/-- `cacheCtl.Close`: closes the memory and the redis backend it holds -/
+def closeBackends : List Nat → World → World
+  | [], w => w
+  | b :: rest, w =>
+    closeBackends rest { w with acts := w.acts ++ [.cacheClose b], live := w.live.filter (· != b) }
+
 /-- `closeImpl` -/
 def closeImpl (r : Router) (w : World) : World :=
   let w := { w with acts := w.acts ++ [.cancel, .limiterClose] }
   let w := closeUpstreams r.upstreams w
   let w := match r.cache with
-    | some c => { w with acts := w.acts ++ [.cacheClose c] }
+    | some bs => closeBackends bs w
     | none => w
   runClosers r.closers w
 
@@ -112,8 +124,21 @@ def initItem (id : Nat) (it : Item) (r : Router) (w : World) : Option (Router ×
     if err then none
     else some ({ r with closers := r.closers ++ [closer] }, { w with live := w.live ++ [id] })
   | .upstream => if it.ok then some ({ r with upstreams := r.upstreams ++ [id] }, w') else none
-  | .cache => if it.ok then some ({ r with cache := some id }, w) else none
-  | .domainSet | .rule => if it.ok then some (r, w) else none
+  | .memCache | .redisCache =>
+    if it.ok then some ({ r with cacheLocal := r.cacheLocal ++ [id] }, { w with live := w.live ++ [id] }) else none
+  | .cacheDone =>
+    -- `r.cache = cache` (executed once in the code; written as an append so that it never forgets a backend)
+    if it.ok then some ({ r with cache := some (r.cache.getD [] ++ r.cacheLocal), cacheLocal := [] }, w) else none
+  | .domainSet | .rule | .ipMarker => if it.ok then some (r, w) else none
+
+/-- what the failing item's own error path does before `run` returns the error: `initCache` closes its local
+    cacheCtl (`c.Close()`) when the redis backend or the ip marker fails — `r.cache` is still nil then, so
+    `closeImpl` would not reach the backends that were already started.  (`cacheDone` cannot fail in the code;
+    marked as failing it stands for any other late error inside `initCache`, all of which call `c.Close()`.) -/
+def failCleanup (it : Item) (r : Router) (w : World) : Router × World :=
+  match it.kind with
+  | .redisCache | .ipMarker | .cacheDone => ({ r with cacheLocal := [] }, closeBackends r.cacheLocal w)
+  | _ => (r, w)
 
 structure Result where
   /-- `run` returned an error (and no router) -/
@@ -130,7 +155,8 @@ def runFrom : Nat → List Item → Router → World → List Nat → Result
   | id, it :: rest, r, w, att =>
     match initItem id it r w with
     | none =>
-      let (r', w') := close r w
+      let (r1, w1) := failCleanup it r w
+      let (r', w') := close r1 w1
       ⟨true, r', w', att ++ [id]⟩
     | some (r', w') => runFrom (id + 1) rest r' w' (att ++ [id])
 
@@ -169,12 +195,14 @@ def obsOf (res : Result) : Obs :=
     leak := res.w.live.length }
 
 /-! ### line protocol
-  case: `it=<k><o><s>,...`  k ∈ m u d r c s (in `run`'s order), o ∈ + -, s ∈ 0 1; further `key=value` tokens
+  case: `it=<k><o><s>,...`  k ∈ m u d r M R I c s (in `run`'s order; M R I: memory cache, redis, ip marker;
+  c: `r.cache = cache`), o ∈ + -, s ∈ 0 1; further `key=value` tokens
   (listener kinds, failure modes) are for the harness only.  output: `res=<ok|err|panic> busy=<ids|-> leak=<n>`.
 -/
 def kindOfChar : Char → Option Kind
   | 'm' => some .metrics | 'u' => some .upstream | 'd' => some .domainSet
-  | 'r' => some .rule | 'c' => some .cache | 's' => some .server | _ => none
+  | 'r' => some .rule | 'M' => some .memCache | 'R' => some .redisCache | 'I' => some .ipMarker
+  | 'c' => some .cacheDone | 's' => some .server | _ => none
 
 def itemOfStr (s : String) : Option Item :=
   match s.toList with
@@ -189,14 +217,30 @@ def itemsOfStr (s : String) : Option (List Item) :=
   if s == "-" then some [] else (s.splitOn ",").mapM itemOfStr
 
 def kindRank : Kind → Nat
-  | .metrics => 0 | .upstream => 1 | .domainSet => 2 | .rule => 3 | .cache => 4 | .server => 5
+  | .metrics => 0 | .upstream => 1 | .domainSet => 2 | .rule => 3 | .memCache => 4 | .redisCache => 5
+  | .ipMarker => 6 | .cacheDone => 7 | .server => 8
 
 /-- `run` visits the items in this order; at most one metrics endpoint and one cache. -/
 def wellOrdered : List Item → Bool
   | a :: b :: rest =>
     (kindRank a.kind < kindRank b.kind ||
-      (kindRank a.kind == kindRank b.kind && a.kind != .metrics && a.kind != .cache)) && wellOrdered (b :: rest)
+      (kindRank a.kind == kindRank b.kind &&
+        (a.kind == .upstream || a.kind == .domainSet || a.kind == .rule || a.kind == .server))) &&
+      wellOrdered (b :: rest)
   | _ => true
+
+/-- the cache stage is one function in the code: its sub-stages (memory cache first) are followed by
+    `cacheDone` before anything else happens.  `b`: inside `initCache`. -/
+def stagedFrom : Bool → List Item → Bool
+  | b, [] => !b
+  | b, it :: rest =>
+    match it.kind with
+    | .memCache => !b && stagedFrom true rest
+    | .redisCache | .ipMarker => stagedFrom true rest
+    | .cacheDone => stagedFrom false rest
+    | _ => !b && stagedFrom false rest
+
+def staged (cfg : List Item) : Bool := stagedFrom false cfg
 
 def strOfIds (l : List Nat) : String :=
   if l.isEmpty then "-" else ",".intercalate (l.map toString)
@@ -217,7 +261,7 @@ def runCase (case impl : String) : String × String :=
   let toks := words case
   match (kvGet toks "it").bind itemsOfStr with
   | some cfg =>
-    if !wellOrdered cfg then ("bad-case", "na") else
+    if !(wellOrdered cfg && staged cfg) then ("bad-case", "na") else
     let m := strOfObs (obsOf (runThenClose cfg 2))
     let v := match obsOfStr impl with
       | some o => if spec cfg o then "ok" else "viol"
